@@ -29,6 +29,10 @@ pub struct Case {
     pub multi: bool,
     #[serde(default)]
     pub spread: i64,
+    /// the scenario runs in the SECOND session the MultiReceiver creates (another endpoint got a packet
+    /// first): every session must get the receiver's configuration
+    #[serde(default)]
+    pub second_session: bool,
 }
 
 const S0: u64 = EPOCH_2027 + 86_400; // sender time when the (last packet of the) FDT is sent
@@ -208,6 +212,14 @@ pub fn run_case(c: &Case) -> Outcome {
     let mut errors = 0usize;
     let r = catch(|| {
         let mut rx = MultiReceiver::new(mon.builder(), Some(cfg), false);
+        if c.second_session {
+            if let Some((t, _)) = evs.first() {
+                let other = endpoint_n(9, None);
+                let exp = unix_to_ntp_secs(S0 + 86_400).to_string();
+                let xml = FdtX::new(&exp).xml();
+                let _ = rx.push(&other, &fdt_packets(TSI, 3, xml.as_bytes(), 8192, None, None).remove(0), unix(*t + c.offset));
+            }
+        }
         for (t, ev) in &evs {
             let now = unix(*t + c.offset);
             match ev {
@@ -317,7 +329,10 @@ pub fn run(thorough: bool) -> i32 {
                                 continue;
                             }
                             for (multi, spread) in [(false, 0i64), (true, 1), (true, 40)] {
-                                cases.push(Case { sct_minus_expires: d, sct_present, offset, check, timing, obj_est_minus_expires: g, multi, spread });
+                                cases.push(Case { sct_minus_expires: d, sct_present, offset, check, timing, obj_est_minus_expires: g, multi, spread, second_session: false });
+                                if !multi {
+                                    cases.push(Case { sct_minus_expires: d, sct_present, offset, check, timing, obj_est_minus_expires: g, multi, spread, second_session: true });
+                                }
                             }
                         }
                     }
